@@ -422,7 +422,39 @@ def check_C05(ctx):
         return ctx.finish()
     # run in a child with an address-space limit so that a regression cannot take the sandbox down
     import resource
-    rc, rep, out, err = run_harness(["alloc", "-seed", str(ctx.seed), "-n", "40" if ctx.tier == "quick" else "600"], timeout=900)
+    d = os.path.join(core.WORK, "alloc-%d" % os.getpid())
+    os.makedirs(d, exist_ok=True)
+    rc, rep, out, err = run_harness(["alloc", "-seed", str(ctx.seed), "-n", "40" if ctx.tier == "quick" else "600", "-dir", d], timeout=900)
+    # the ledger of the reader-object decoder (theorem C05_alloc_linear bounds it) against the measured allocation
+    if rep is not None and facts.get("ocaml_ok") and os.path.exists(os.path.join(d, "cases.txt")):
+        run_model(os.path.join(d, "cases.txt"), os.path.join(d, "model.txt"))
+        rd = lambda f: open(os.path.join(d, f), errors="replace").read().split("\n")
+        cases, impl, model = rd("cases.txt"), rd("impl.txt"), rd("model.txt")
+        n = over = cls = 0
+        worst = 0.0
+        for i in range(len(cases) - 1):
+            mi = re.search(r"^(\w+) alloc=(\d+)$", impl[i])
+            mm = re.search(r"^(\w+).* alloc=(\d+)$", model[i] if i < len(model) else "")
+            if not mi or not mm:
+                continue
+            n += 1
+            real, ledger = int(mi.group(2)), int(mm.group(2))
+            worst = max(worst, real / max(1, ledger))
+            data_len = len(cases[i].split(" ")[-1].replace("_", "")) // 2
+            if ledger > 1536 * data_len + 8192 + 4288:
+                ctx.violation("theorem-contradicted", {"what": "the extracted ledger exceeds the bound of theorem C05_decode_bound: glue or build problem", "case": short(cases[i], 2000), "ledger": ledger}, found_input=False)
+            if (mi.group(1) == "ok") != (mm.group(1) == "ok"):
+                cls += 1
+            if real > 1.25 * ledger + 24576:
+                over += 1
+                if over <= 3:
+                    ctx.violation("ledger", {"what": "Decode allocated more than the allocation ledger of the reader-object model accounts for (real > 1.25 x ledger + 24 KiB): the implementation allocates where the model - and theorem C05_alloc_linear about it - does not",
+                                             "case": short(cases[i], 3000), "allocated": real, "ledger": ledger, "input_len": data_len})
+        ctx.cov["ledger_cases"] = n
+        ctx.cov["ledger_worst_real_over_ledger"] = round(worst, 3)
+        ctx.cov["ledger_outcome_class_differences"] = cls
+    import shutil
+    shutil.rmtree(d, ignore_errors=True)
     if rep is None:
         ctx.violation("alloc-crash", {"what": "alloc suite crashed (out of memory is itself the violation: a Decode call exhausted memory or the time limit)",
                                       "replay": "harness/harness alloc -seed %d" % ctx.seed, "stderr": tail(err, 30)})
@@ -437,7 +469,7 @@ def check_C05(ctx):
             ctx.violation("alloc", v)
     # the model side of the tie: same outcome projection as C04 on the same kind of inputs
     ctx.assumptions += CODEC_ASSUME + [
-        "partial: the Go heap, GC, size classes and reflect's internal allocations are not modelled; what is proved about the model is that values and nested regions are bounded by the bytes really present (never by declared lengths); the linear bound itself (700 bytes per input byte + 64 KiB; steepest legitimate slope: one 4 KiB bufio per 8-byte structure header) is measured on the implementation with runtime.MemStats.TotalAlloc, GC off, one goroutine",
+        "partial: the Go heap, GC, size classes and reflect's internal allocations are not modelled; the theorem (C05_alloc_linear / C05_decode_bound: ledger <= 1536 x bytes available + 12 KiB for every input, script and outcome) is about an allocation LEDGER charged by the reader-object decoder model for every make/new/append/boxing/error value of the Go code; the ledger is tied to the real heap by comparing it with runtime.MemStats.TotalAlloc on every case of this run (real <= 1.25 x ledger + 24 KiB; worst ratio in coverage), and the implementation is independently held to 700 bytes per input byte + 64 KiB, GC off, one goroutine",
     ]
     if broken and not ctx.violations:
         ctx.violation("theorem", broken, found_input=False)
